@@ -5,8 +5,19 @@ from lib.units import SeqUnit, McUnit, TraceUnit
 
 def units(ctx):
     return [
-        SeqUnit("ext2", "Lifecycle", do_mc=False, do_lts=False, traces=(60, 60), thorough_traces=(600, 80)),
+        # runtime/module: exhaustive slice "one module, two callbacks, both lifecycles"; replay of the slice "callbacks and
+        # lifecycles of one module"; random histories over 4 modules / 8 callbacks / 3 wait groups validated by TLC
+        SeqUnit("ext2", "Lifecycle", lts_kind=("lts2" if ctx.thorough else "lts"), traces=(60, 60), thorough_traces=(600, 80),
+                walks=(60, 20), thorough_walks=(300, 30)),
+        # replay of the slice "sub-module, log levels, TriggerAll / WaitAll"
+        SeqUnit("ext2", "Lifecycle", name="Lifecycle:tree", lts_kind="ltsB", do_mc=False, do_trace=False, walks=(60, 20)),
+        # further exhaustive slices: tree of three modules with levels; wait groups over two modules
+        McUnit("ext2", "Lifecycle", "mcT", name="Lifecycle:mcT"),
+        McUnit("ext2", "Lifecycle", "mcW", name="Lifecycle:mcW"),
         SeqUnit("ext2", "MergeCtx", lts_kind=("lts2" if ctx.thorough else "lts"), traces=(40, 40), thorough_traces=(400, 60), walks=(60, 20), thorough_walks=(300, 30)),
+        # runtime/module under concurrency: forced schedules (a Trigger held in flight inside a gate callback while other calls
+        # are made) + free-running triggerers / registrars / unsubscribers / InitSimpleLifecycle / TriggerAll / WaitAll+Wait / readers
+        TraceUnit("ext2", "LifeRun", "x2life", args=["-traces", 60], thorough_args=["-traces", 1500], sut="LifeRun"),
         # the trace spec itself (closed over a small alphabet): what it accepts keeps the first error
         McUnit("ext2", "CtxRun", "", name="CtxRun:spec"),
         # MergeContexts under concurrency: forced schedules through the gates in the fake parents' Done()/Err() + free-running
